@@ -2,6 +2,7 @@ import FractopoModel.Lemmas.Topology
 import FractopoModel.Spec.Classes
 import FractopoModel.Generated.BranchIdentity
 import FractopoModel.Generated.DegreeToClass
+import FractopoModel.Lemmas.NodeTable
 /-!
 # C05 — node and branch tables are mutually consistent for every input
 
@@ -112,5 +113,26 @@ example :
       branchLabel Gen.determine_branch_identity (fun p q => p == q) (collect bs)
         (nodeClass (fun p => p == 3) Gen.degree_to_class bs) ⟨3, 1⟩ = "C - E" := by
   decide
+
+/-- **The regenerated node collection IS the model's node table.** `Gen.node_identities_from_branches` and the
+`Gen.node_identity` it calls are regenerated from /repo on every run (the loop over all branch ends, the WKT-keyed
+dict, the boundary test, the point query, `remove(idx)`, the count of candidates within the threshold, the degree
+chain). Under the laws of the geometry parameters (`QueryLaw`: the point query at an end returns the positions of
+the coincident ends; a point is within the threshold of itself) the generated code returns exactly
+`Topo.collect` with `Topo.nodeClass` -- so every theorem above (`C05_nodes_nodup`, `C05_handshake`,
+`C05_E_iff_boundary`, `C05_class_of_degree`, ...) is a statement about the regenerated code. -/
+theorem C05_generated_node_table {A : Type} (bdist : P → A → Rat) (dist : P → P → Rat) (query : P → List Nat) (dflt : P)
+    (bs : List (Branch P)) (areas : List A) (t : Rat) (hq : NodeTable.QueryLaw query (ends bs)) (ht : ∀ p, dist p p < t) :
+    Gen.node_identities_from_branches bdist dist query id dflt (ends bs) areas t =
+      (collect bs, (collect bs).map (nodeClass (fun p => areas.any fun a => decide (bdist p a < t)) Gen.degree_to_class bs)) :=
+  NodeTable.generated_node_table bdist dist query dflt bs areas t hq ht
+
+/-- non-vacuity: three branches meeting at point 1 (a Y-node), ends 0, 2, 3 free; one area whose boundary is
+near point 3 only; the query answers with the positions of equal ends -/
+example :
+    let bs : List (Branch Nat) := [⟨0, 1⟩, ⟨2, 1⟩, ⟨3, 1⟩]
+    let query : Nat → List Nat := fun p => NodeTable.positions (ends bs) p
+    Gen.node_identities_from_branches (fun p (_ : Unit) => if p = 3 then 0 else 10) (fun _ _ => 0) query id 0 (ends bs) [()] 1
+      = ([0, 1, 2, 3], ["I", "Y", "I", "E"]) := by decide +kernel
 
 end C05
